@@ -169,6 +169,21 @@ pub fn run_watch(scratch: &Scratch, texts: &[String], rename_saves: &[bool], pin
             Ok(())
         });
     }
+    // One screen: standard output and standard error of the watcher arrive on one pipe, in
+    // the order they were written (which of the two a verdict is printed to is not the subject)
+    let mut fds = [0 as std::os::fd::RawFd; 2];
+    if unsafe { libc::pipe2(fds.as_mut_ptr(), libc::O_CLOEXEC) } != 0 {
+        run.spawn_error = Some("pipe".into());
+        return run;
+    }
+    let (screen_r, screen_w) = unsafe {
+        use std::os::fd::FromRawFd;
+        (std::os::fd::OwnedFd::from_raw_fd(fds[0]), std::os::fd::OwnedFd::from_raw_fd(fds[1]))
+    };
+    let Ok(screen_w2) = screen_w.try_clone() else {
+        run.spawn_error = Some("dup".into());
+        return run;
+    };
     let mut child = match command
         .arg("watch")
         .arg("f.asm")
@@ -178,8 +193,8 @@ pub fn run_watch(scratch: &Scratch, texts: &[String], rename_saves: &[bool], pin
         .env("HOME", &scratch.dir)
         .env("PATH", "/usr/bin:/bin")
         .stdin(Stdio::null())
-        .stdout(Stdio::piped())
-        .stderr(Stdio::piped())
+        .stdout(Stdio::from(screen_w))
+        .stderr(Stdio::from(screen_w2))
         .spawn()
     {
         Ok(c) => c,
@@ -188,12 +203,11 @@ pub fn run_watch(scratch: &Scratch, texts: &[String], rename_saves: &[bool], pin
             return run;
         }
     };
-    let out = child.stdout.take().expect("piped");
-    let err = child.stderr.take().expect("piped");
+    // (the write ends live on in the command until it is dropped)
+    drop(command);
+    let out = screen_r;
     set_nonblocking(out.as_raw_fd());
-    set_nonblocking(err.as_raw_fd());
     let mut stdout: Vec<u8> = Vec::new();
-    let mut stderr: Vec<u8> = Vec::new();
 
     // The first screen (whatever it says): some output, then a moment of quiet
     let started = Instant::now();
@@ -201,7 +215,6 @@ pub fn run_watch(scratch: &Scratch, texts: &[String], rename_saves: &[bool], pin
     let mut last_change = Instant::now();
     loop {
         drain(out.as_raw_fd(), &mut stdout);
-        drain(err.as_raw_fd(), &mut stderr);
         if stdout.len() != last_len {
             last_len = stdout.len();
             last_change = Instant::now();
@@ -210,7 +223,7 @@ pub fn run_watch(scratch: &Scratch, texts: &[String], rename_saves: &[bool], pin
             break;
         }
         if let Ok(Some(status)) = child.try_wait() {
-            run.died = Some(format!("watcher ended with {:?} before watching: {}", status.code(), String::from_utf8_lossy(&stderr)));
+            run.died = Some(format!("watcher ended with {:?} before watching: {}", status.code(), String::from_utf8_lossy(&stdout)));
             return run;
         }
         if started.elapsed() > REPORT_GUARD {
@@ -261,8 +274,7 @@ pub fn run_watch(scratch: &Scratch, texts: &[String], rename_saves: &[bool], pin
         let mut last_output = Instant::now();
         loop {
             drain(out.as_raw_fd(), &mut stdout);
-            drain(err.as_raw_fd(), &mut stderr);
-            if stdout.len() != last_len {
+                if stdout.len() != last_len {
                 last_len = stdout.len();
                 last_output = Instant::now();
             }
@@ -292,12 +304,11 @@ pub fn run_watch(scratch: &Scratch, texts: &[String], rename_saves: &[bool], pin
             }
             if let Ok(Some(status)) = child.try_wait() {
                 drain(out.as_raw_fd(), &mut stdout);
-                drain(err.as_raw_fd(), &mut stderr);
-                run.died = Some(format!(
+                        run.died = Some(format!(
                     "watcher ended with {:?} at version {}: {}",
                     status.code(),
                     i,
-                    String::from_utf8_lossy(&stderr).lines().last().unwrap_or("")
+                    String::from_utf8_lossy(&stdout).lines().last().unwrap_or("")
                 ));
                 run.seen.push(shown.err().flatten());
                 break 'versions;
